@@ -154,16 +154,24 @@ impl Context {
     pub fn replace_all(&self, s: &str) -> String {
         let mut res = String::from(s);
         let mut changed;
+        // A macro whose expansion contains its own name would otherwise be expanded forever
+        let mut passes = 0;
         loop {
             changed = false;
+            passes += 1;
+            if passes > 256 {
+                break;
+            }
             for (i, set) in self.regex_sets.iter().enumerate() {
                 for idx in set.matches(s).into_iter() {
                     let x = self.regexes[i][idx]
                         .0
                         .replace_all(&res, &self.regexes[i][idx].1);
                     if let Cow::Owned(z) = x {
-                        res = z.to_string();
-                        changed = true;
+                        if z != res {
+                            res = z.to_string();
+                            changed = true;
+                        }
                     }
                 }
             }
